@@ -406,7 +406,14 @@ impl NodeStream {
                     // replaced this call's query, and this caller was handed that query's outcome
                     out.violation("C06", "cross-kind-put-shares-outcome", format!("call c{no} ({}) got the concurrency error of a put_mutable on the same target, which its facade treats as unreachable: the caller panics ({m})", c.what.chars().take(60).collect::<String>()));
                 } else {
-                    out.violation(if m.contains("concurrency") { "C17" } else { "C05" }, "facade-panic", format!("the API facade panicked in call c{no} ({}): {m}", c.what));
+                    if m.contains("concurrency") {
+                        out.violation("C17", "facade-panic", format!("the API facade panicked in call c{no} ({}): {m}", c.what));
+                    }
+                    if !m.contains("concurrency") || plain_put {
+                        // no put_mutable anywhere in this run: the concurrency error of a plain put was made
+                        // from what remote nodes answered
+                        out.violation("C05", "facade-panic", format!("the API facade panicked in call c{no} ({}): {m}", c.what.chars().take(80).collect::<String>()));
+                    }
                 }
                 if m.contains("dropped before sending") || m.contains("Disconnected") {
                     // the actor dropped the caller's channel without sending an outcome
@@ -631,7 +638,9 @@ impl NodeStream {
             for (id, addr, _) in prev.routing_table.iter() {
                 if let Some(t) = self.answered.get(addr) {
                     // re-keying the table (new own id) may legitimately drop nodes
-                    if now - *t < 15 * 60 * SEC && !in_table.contains(addr) && prev.id == s.id {
+                    // (the peer is its id: an entry that followed the peer to another port of its IP is the peer)
+                    let followed = s.routing_table.iter().any(|(i, a, _)| i == id && a.ip() == addr.ip());
+                    if now - *t < 15 * 60 * SEC && !in_table.contains(addr) && !followed && prev.id == s.id {
                         out.violation("C14", "responsive-peer-dropped", format!("{}@{addr} answered one of our requests {} s ago but was removed from the routing table", hex(id.as_bytes()), (now - *t) / SEC));
                     }
                 }
@@ -1089,6 +1098,9 @@ pub struct VPeer {
     /// a peer with a narrow view: asked about this target it lists exactly these peers, asked about
     /// anything else it lists nobody
     pub chain_for: Option<(Id, Vec<usize>)>,
+    /// a client that sends no version field (most of the real network): it does not support signed
+    /// announcements, so it never enters the signed-peers routing table
+    pub legacy: bool,
 }
 
 pub struct VNet {
@@ -1121,7 +1133,7 @@ impl VNet {
             let addr = SocketAddrV4::new(ip, 6881);
             let id = Id::from_bytes(rng.id20()).expect("id");
             by_addr.insert(addr, i);
-            peers.push(VPeer { id, addr, alive: true, mode: 0, read_only: false, imm: HashMap::new(), muts: HashMap::new(), peers: HashMap::new(), speers: HashMap::new(), put_reply: 0, forge: 0, extra_delay: 0, put_delay: 0, ignore_gets: false, ignore_puts: false, ro_puts: false, echo_requester: false, chain_for: None });
+            peers.push(VPeer { id, addr, alive: true, mode: 0, read_only: false, imm: HashMap::new(), muts: HashMap::new(), peers: HashMap::new(), speers: HashMap::new(), put_reply: 0, forge: 0, extra_delay: 0, put_delay: 0, ignore_gets: false, ignore_puts: false, ro_puts: false, echo_requester: false, chain_for: None, legacy: false });
         }
         VNet { peers, by_addr, list_k: 8, list_rev: false }
     }
@@ -1314,6 +1326,8 @@ pub struct InFlight {
     /// the transaction id of the request this answers (of the message itself, for a looped-back
     /// datagram): when the node has meanwhile sent the same request again, `re=` would name the newer one
     pub tid: Option<u32>,
+    /// sent without a version field
+    pub legacy: bool,
 }
 
 fn signable_mut(seq: i64, v: &[u8], salt: Option<&[u8]>) -> Vec<u8> {
@@ -1326,6 +1340,9 @@ fn signable_mut(seq: i64, v: &[u8], salt: Option<&[u8]>) -> Vec<u8> {
     s.extend_from_slice(v);
     s
 }
+
+/// salts named by `salt=` in the API calls of this run (the answer to a get does not carry the salt)
+pub static CALL_SALTS: std::sync::Mutex<Vec<Vec<u8>>> = std::sync::Mutex::new(Vec::new());
 
 /// `know` ops for every signature in the datagram that really verifies (the model's verification
 /// oracle is the set of registered triples)
@@ -1343,6 +1360,10 @@ pub fn known_signatures(f: &InFlight) -> Vec<String> {
         MessageType::Response(ResponseSpecific::GetMutable(a)) => {
             for salt in salts {
                 check(&a.k, signable_mut(a.seq, &a.v, salt), &a.sig);
+            }
+            // and the salts the calls of this run named
+            for salt in CALL_SALTS.lock().unwrap().iter() {
+                check(&a.k, signable_mut(a.seq, &a.v, Some(salt)), &a.sig);
             }
         }
         MessageType::Response(ResponseSpecific::GetSignedPeers(a)) => {
@@ -1375,7 +1396,7 @@ pub fn known_signatures(f: &InFlight) -> Vec<String> {
 }
 
 pub fn step_line(f: &InFlight) -> String {
-    let m = Msg::new(0, Some([82, 83, 0, 6]), f.ip, f.mt.clone(), f.ro);
+    let m = Msg::new(0, if f.legacy { None } else { Some([82, 83, 0, 6]) }, f.ip, f.mt.clone(), f.ro);
     let bytes = m.to_bytes().expect("enc");
     match &f.re {
         Some(k) => format!("step from={} re={} msg={}", addr_s(&f.from), k, hex(&bytes)),
@@ -1415,7 +1436,7 @@ impl<'a> Driver<'a> {
     /// a peer sends a request to the node
     pub fn inject_request(&mut self, from: SocketAddrV4, requester: Id, rt: RequestTypeSpecific, ro: bool) {
         self.seq += 1;
-        self.queue.push(InFlight { due: verif::now_ns(), from, re: None, mt: MessageType::Request(dht::RequestSpecific { requester_id: requester, request_type: rt }), ro, ip: None, seq: self.seq, tid: None });
+        self.queue.push(InFlight { due: verif::now_ns(), from, re: None, mt: MessageType::Request(dht::RequestSpecific { requester_id: requester, request_type: rt }), ro, ip: None, seq: self.seq, tid: None, legacy: false });
     }
     pub fn begin(&mut self, mode: &str, boot: &[SocketAddrV4], public: Option<Ipv4Addr>, seed: u64, t0: u64) {
         self.begin_at(mode, boot, public, None, seed, t0)
@@ -1439,7 +1460,7 @@ impl<'a> Driver<'a> {
             if s.to == self.s.addr && self.reachable {
                 // the node's own datagram loops back to it
                 self.seq += 1;
-                self.queue.push(InFlight { due: now + self.latency, from: self.s.addr, re: s.key.clone(), mt: s.msg.message_type().clone(), ro: s.msg.read_only(), ip: s.msg.requester_ip(), seq: self.seq, tid: Some(s.msg.transaction_id()) });
+                self.queue.push(InFlight { due: now + self.latency, from: self.s.addr, re: s.key.clone(), mt: s.msg.message_type().clone(), ro: s.msg.read_only(), ip: s.msg.requester_ip(), seq: self.seq, tid: Some(s.msg.transaction_id()), legacy: false });
                 continue;
             }
             let MessageType::Request(req) = s.msg.message_type() else { continue };
@@ -1464,10 +1485,10 @@ impl<'a> Driver<'a> {
             }
             self.seq += 1;
             let seen_as = Some(self.report_ip.unwrap_or(self.s.addr));
-            self.queue.push(InFlight { due, from, re: s.key.clone(), mt: mt.clone(), ro, ip: seen_as, seq: self.seq, tid: Some(s.msg.transaction_id()) });
+            self.queue.push(InFlight { due, from, re: s.key.clone(), mt: mt.clone(), ro, ip: seen_as, seq: self.seq, tid: Some(s.msg.transaction_id()), legacy: self.net.peers[i].legacy });
             if self.net.peers[i].mode == 2 || self.rng.below(100) < self.dup_pct {
                 self.seq += 1;
-                self.queue.push(InFlight { due: due + MS, from, re: s.key.clone(), mt, ro, ip: seen_as, seq: self.seq, tid: Some(s.msg.transaction_id()) });
+                self.queue.push(InFlight { due: due + MS, from, re: s.key.clone(), mt, ro, ip: seen_as, seq: self.seq, tid: Some(s.msg.transaction_id()), legacy: self.net.peers[i].legacy });
             }
         }
     }
@@ -1551,6 +1572,18 @@ impl<'a> Driver<'a> {
     pub fn api(&mut self, call: String) -> u32 {
         self.next_call += 1;
         let no = self.next_call;
+        if let Some(h) = call.split(' ').find_map(|t| t.strip_prefix("salt=")) {
+            if h != "none" && h != "-" {
+                let salt = unhex(h);
+                let mut known = CALL_SALTS.lock().unwrap();
+                if !known.contains(&salt) {
+                    if known.len() >= 16 {
+                        known.remove(0);
+                    }
+                    known.push(salt);
+                }
+            }
+        }
         self.run(format!("api c{no} {call}"));
         no
     }
@@ -2243,8 +2276,17 @@ pub fn run(out: &mut Out, seed: u64, thorough: bool, replay: Option<&str>) {
             }
             let second = put_mut_call(9, *seq2, v2, Some(b"s"), *cas2);
             let want = if phase == 3 { "ok" } else { *want };
-            d.api(format!("{second} expect={want}"));
+            let c2 = d.api(format!("{second} expect={want}"));
             d.settle(20 * SEC, 10 * MS);
+            // a second write that was accepted and differs from the first took its place: Ok means that a
+            // storing node acknowledged THIS item, so some node of the (honest, loss-free) network holds it
+            if d.results(c2).first().map(|r| r.contains(":ok:")).unwrap_or(false) && *name != "same" {
+                let item = MutableItem::new(&key_from_seed(9), v2, *seq2, Some(b"s"));
+                let held = d.net.peers.iter().any(|p| p.muts.get(item.target()).map(|(v, _, seq, _)| v.as_slice() == *v2 && *seq == *seq2).unwrap_or(false));
+                if !held {
+                    d.out.violation("C17", "accepted-write-not-stored", format!("put_mutable (seq {seq2}, cas {:?}, relation `{name}`, phase {phase}) returned Ok but no storing node was ever sent the item: every node still holds {:?}", cas2, d.net.peers.iter().filter_map(|p| p.muts.get(item.target()).map(|(v, _, seq, _)| (*seq, String::from_utf8_lossy(v).to_string()))).collect::<Vec<_>>()));
+                }
+            }
             d.finish();
             d.out.mark_distinct(fnv(format!("D{phase}{name}").as_bytes()));
             d.out.count(&format!("c17-phase{phase}-{want}"));
@@ -2337,9 +2379,10 @@ pub fn run(out: &mut Out, seed: u64, thorough: bool, replay: Option<&str>) {
     }
     // ---- F: adaptive mode (C18): reachable at the voted address -> server after the next refresh;
     //         NATed (self-ping lost) -> stays a client
-    for (reachable, explicit_server) in [(true, false), (false, false), (true, true)] {
+    //         (also with a single peer: one report of the address is enough)
+    for (reachable, explicit_server, n) in [(true, false, 6usize), (false, false, 6), (true, true, 6), (true, false, 1), (false, false, 1)] {
         t0 += 10_000_000_000_000;
-        let net = VNet::new(&mut rng, 6, false);
+        let net = VNet::new(&mut rng, n, false);
         let boot = vec![net.peers[0].addr];
         let mut d = Driver::new(out, rng.next(), net);
         d.reachable = reachable;
@@ -2364,7 +2407,7 @@ pub fn run(out: &mut Out, seed: u64, thorough: bool, replay: Option<&str>) {
             }
         }
         d.finish();
-        d.out.mark_distinct(fnv(format!("F{reachable}{explicit_server}").as_bytes()));
+        d.out.mark_distinct(fnv(format!("F{reachable}{explicit_server}{n}").as_bytes()));
         d.s.shutdown();
     }
     // ---- G: hours of uptime (C14): steady peers, a peer that goes silent, one that comes back
@@ -2395,6 +2438,52 @@ pub fn run(out: &mut Out, seed: u64, thorough: bool, replay: Option<&str>) {
         }
         d.finish();
         d.out.mark_distinct(fnv(format!("G{round}").as_bytes()));
+        d.s.shutdown();
+    }
+    // ---- G4 (C14): a known peer keeps its id and IP but moves to another UDP port (NAT rebinding, restart)
+    //          and goes on answering from there: once it has answered from the new port it is in the table at
+    //          that address, for as long as it keeps answering
+    for round in 0..(if thorough { 3 } else { 1 }) {
+        t0 += 10_000_000_000_000;
+        let mut net = VNet::new(&mut rng, 8 + 4 * round, round % 2 == 0);
+        // ordinary clients without a version field: the signed-peers table stays empty, so a
+        // get_signed_peers lookup starts from the bootstrap node and asks whoever that node lists, at
+        // the address it lists
+        for p in net.peers.iter_mut() {
+            p.legacy = true;
+        }
+        let boot = vec![net.peers[0].addr];
+        let mut d = Driver::new(out, rng.next(), net);
+        d.begin("c", &boot, None, rng.next() % 1_000_000 + 1, t0);
+        d.run_for(3 * SEC, 10 * MS);
+        d.run("snap".into());
+        let old = d.net.peers[3].addr;
+        let moved = SocketAddrV4::new(*old.ip(), 7000 + round as u16);
+        for minute in 0..(if thorough { 60 } else { 45 }) {
+            if minute == 4 {
+                d.net.by_addr.remove(&old);
+                d.net.by_addr.insert(moved, 3);
+                d.net.peers[3].addr = moved;
+            }
+            d.run_for(60 * SEC, SEC);
+            if minute % 11 == 3 || minute == 6 {
+                let t = Id::from_bytes(d.rng.id20()).expect("id");
+                d.api(format!("get_speers ih={}", hex(t.as_bytes())));
+                d.settle(20 * SEC, 10 * MS);
+            }
+            if minute % 5 == 4 || minute == 6 {
+                d.run("snap".into());
+                let now = verif::now_ns();
+                if let (Some(t), Some(sn)) = (d.s.answered.get(&moved).copied(), d.s.last_snapshot.clone()) {
+                    if now - t < 15 * 60 * SEC && !sn.routing_table.iter().any(|(_, a, _)| *a == moved) {
+                        let listed: Vec<String> = sn.routing_table.iter().filter(|(i, _, _)| *i == d.net.peers[3].id).map(|(_, a, _)| addr_s(a)).collect();
+                        d.out.violation("C14", "moved-peer-not-relearned", format!("{}@{moved} answered one of our requests {} s ago from its new port but the routing table does not list it there (entries for that id: {:?})", hex(d.net.peers[3].id.as_bytes()), (now - t) / SEC, listed));
+                    }
+                }
+            }
+        }
+        d.finish();
+        d.out.mark_distinct(fnv(format!("G4{round}").as_bytes()));
         d.s.shutdown();
     }
     // ---- G3 (C14): a server with a bootstrap list hears find_node requests from strangers that support
@@ -2738,6 +2827,47 @@ pub fn run(out: &mut Out, seed: u64, thorough: bool, replay: Option<&str>) {
         d.finish();
         d.out.mark_distinct(fnv(format!("K4{round}").as_bytes()));
         d.out.count("newest-at-the-end-of-the-chain");
+        d.s.shutdown();
+    }
+    // ---- K5 (C16): the newest version arrives in an answer that is slower than the initial 500 ms request
+    //          timeout but within the timeout in force when it arrives: the socket's timeout adapts to the round
+    //          trips it measures, and a still slower answer of another node (600 ms) has just raised it to
+    //          600 ms.  A (600 ms) and X (55 ms) are asked first; X lists B and Y; B holds the newest version
+    //          and answers after 560 ms, i.e. 10 ms after A; Y lists C, whose pending request keeps the lookup
+    //          running meanwhile.  The socket accepts B's answer, so the item is delivered to the lookup
+    for round in 0..(if thorough { 3 } else { 1 }) {
+        t0 += 10_000_000_000_000;
+        let old = MutableItem::new(&key_from_seed(9), b"version one", 1, None);
+        let newest = MutableItem::new(&key_from_seed(9), b"version two", 2, None);
+        let target = *old.target();
+        let mut net = VNet::new(&mut rng, 5, true);
+        let chain: [Vec<usize>; 5] = [vec![], vec![2, 3], vec![], vec![4], vec![]];
+        for (j, p) in net.peers.iter_mut().enumerate() {
+            p.chain_for = Some((target, chain[j].clone()));
+        }
+        for j in [0usize, 4] {
+            net.peers[j].muts.insert(target, (old.value().to_vec(), *old.key(), old.seq(), *old.signature()));
+        }
+        net.peers[2].muts.insert(target, (newest.value().to_vec(), *newest.key(), newest.seq(), *newest.signature()));
+        let boot = vec![net.peers[0].addr, net.peers[1].addr];
+        let mut d = Driver::new(out, rng.next(), net);
+        d.begin("c", &boot, None, rng.next() % 1_000_000 + 1, t0);
+        d.run_for(2 * SEC, 10 * MS);
+        let l = d.latency;
+        let shift = round as u64 * 3 * MS;
+        d.net.peers[0].extra_delay = 600 * MS - l;
+        d.net.peers[1].extra_delay = 50 * MS;
+        d.net.peers[2].extra_delay = 560 * MS - l - shift;
+        d.net.peers[3].extra_delay = 90 * MS - l;
+        d.net.peers[4].extra_delay = 480 * MS - l;
+        let c = d.api(format!("get_mut_recent k={} salt=none", hex(key_from_seed(9).verifying_key().as_bytes())));
+        d.settle(20 * SEC, 10 * MS);
+        let got = d.results(c);
+        if !got.iter().any(|r| r.contains(":recent:") && r.contains("seq=2 ")) {
+            d.out.violation("C16", "newest-item-missed", format!("the answer carrying seq 2 arrived {} ms after its request, within the request timeout of 600 ms in force at that moment, but get_mutable_most_recent returned {:?}", (560 * MS - shift) / MS, got.iter().map(|r| r.chars().take(100).collect::<String>()).collect::<Vec<_>>()));
+        }
+        d.finish();
+        d.out.mark_distinct(fnv(format!("K5{round}").as_bytes()));
         d.s.shutdown();
     }
     // ---- O: answers of the wrong shape (C05, C06, C08): nodes that answer lookups with a KRPC error or a bare
